@@ -136,6 +136,14 @@ func c10Drivers() []*icCfg {
 		// Close while the policy goroutine still has an eviction / an expiry to perform (it needs the shard lock then)
 		{Name: "D7-close-vs-eviction", O: hOpts{MaxSize: 1, ChanSize: 2, BufSize: 2}, Pre: []icOp{S(1)}, Scripts: [][]icOp{{S(2), S(4)}, {C}}, Post: epi},
 		{Name: "D8-close-vs-expiry", O: q2, Pre: []icOp{{Kind: "set", K: 1, Cost: 1, TTL: sec}}, Scripts: [][]icOp{{{Kind: "tick", Arg: 2 * sec}, G(1)}, {C}}, Post: epi},
+		// Close against the remaining users of the policy lock and of all shard locks: SaveCache, the size views, and the
+		// hybrid-only calls (lookup with promotion, delete in both tiers) while a demotion is queued
+		{Name: "D9-close-vs-save", O: q2, Pre: []icOp{S(1), S(2)}, Scripts: [][]icOp{{{Kind: "persist"}, S(3)}, {C}}, Post: epi},
+		{Name: "D9b-close-vs-views", O: q2, Pre: []icOp{S(1)}, Scripts: [][]icOp{{{Kind: "est"}, {Kind: "stats"}, {Kind: "len"}}, {S(2)}, {C}}, Post: epi},
+		{Name: "D10-hybrid-lookup-delete", O: hOpts{MaxSize: 1, ChanSize: 2, BufSize: 2}, Hy: &hyIcCfg{Workers: 1, Prob: 1}, Pre: []icOp{S(1), S(2), W},
+			Scripts: [][]icOp{{{Kind: "hget", K: 1}, {Kind: "hdel", K: 1}}, {C}}, Post: []icOp{{Kind: "est"}, G(1), S(3), {Kind: "len"}, W}},
+		{Name: "D10b-hybrid-loading", O: hOpts{MaxSize: 1, ChanSize: 2, BufSize: 2}, Hy: &hyIcCfg{Workers: 1, Prob: 1}, Loading: true, LoadCost: 1, Pre: []icOp{L(1), L(2), W},
+			Scripts: [][]icOp{{L(1)}, {C}}, Post: []icOp{{Kind: "est"}, G(1), S(3), {Kind: "len"}, W}},
 		{Name: "D6-close-close", O: q2, Pre: []icOp{S(1)}, Scripts: [][]icOp{{C}, {C}, {S(2)}}, Post: epi},
 	}
 }
